@@ -215,6 +215,12 @@ def host_oracle(ctx, c, r, stats):
     if r["new"] != "ok":
         ctx.fail("LCD() raised for a positive geometry", c, "object", r["new"], key="host-new")
         return
+    for x in r.get("cross", []):
+        # several displays: each object's animations live on that object only (a frame of display A's animation on
+        # display B occupies a row that is not 'the animation's row'; B's own steps must not depend on A's ticks)
+        ctx.fail(f"an operation on one display ({x['by']}) changed the {x['changed']} display's buffer / animation states", c,
+                 x["before"], x["after"], key="host-cross-display")
+        return
     valid = []
     foreign = False
     for a, ra in zip(c["anims"], r["animate"]):
@@ -369,6 +375,12 @@ def gen_host_cases(ctx):
         nows = tick_times(kind, speed, n_due, rng, cap=900)
         cases.append({"cols": cols, "rows": rows, "i2c": j % 2 == 1, "anims": [[style, row, text, speed, loop]],
                       "nows": nows, "tick_kw": j % 5 == 0, "tag": f"grid:{kind}"})
+        if j % 9 == 4:
+            # a second display with the same geometry running an animation of the SAME style on the SAME row (same
+            # registry key), with another text/speed/loop flag, ticked between two of every three of the main ticks
+            cases[-1]["peer"] = {"cols": cols, "rows": rows, "anims": [[style, row, mk_text(max(1, n // 2 + 1), salt=j + 5), [0, 1, 100][(j // 9) % 3], not loop]],
+                                 "tick_before": [k for k in range(len(nows)) if k % 3 != 1]}
+            cases[-1]["tag"] += ":two-displays"
     # speeds outside the boundary set, negative speeds (host clamps to 0), spaced / non-ASCII texts, mixed schedules
     extra_texts = ["", "a", "   ", "Hi there", "héllo wörld ✓", "漢字かな", "  lead", "x" * 45]
     for j in range(120 if thorough else 40):
@@ -393,6 +405,14 @@ def gen_host_cases(ctx):
             anims.append([st, row, mk_text(rng.choice(len_classes(cols)), salt=j + len(anims)), rng.choice([0, unit, unit, 1, 3, 100, -2]), rng.random() < 0.5])
         nows = tick_times(["mixed", "burst"][j % 2], unit, 40, rng, cap=200)
         cases.append({"cols": cols, "rows": rows, "i2c": False, "anims": anims, "nows": nows, "tag": "multi"})
+        if j % 2 == 0:
+            # a second display alive in the same process: created first, its animations started before and after the
+            # main display's, ticked in between the main display's ticks (two of every three) - "one or more displays"
+            pcols, prows = rng.choice([2, 8, 16, cols]), rng.choice([1, 2, 4])
+            panims = [[rng.choice(STYLES), rng.randrange(prows), mk_text(rng.choice(len_classes(pcols)), salt=j + 40 + q),
+                       rng.choice([0, unit, 1, 100]), rng.random() < 0.5] for q in range(rng.randint(1, 3))]
+            cases[-1]["peer"] = {"cols": pcols, "rows": prows, "anims": panims, "tick_before": [k for k in range(len(nows)) if k % 3 != 2]}
+            cases[-1]["tag"] = "multi:two-displays"
     # geometry rejected by the constructor; tick with now = 0 (tick() without argument)
     cases.append({"cols": 0, "rows": 2, "i2c": False, "anims": [], "nows": [], "tag": "bad-geometry"})
     cases.append({"cols": 16, "rows": 0, "i2c": False, "anims": [], "nows": [], "tag": "bad-geometry"})
@@ -1259,11 +1279,12 @@ def run_injection_trees(ctx, stats):
         decl = sorted([nid[n], int(k)] for (n, k) in VAR_RE.findall(cpp))
         if in_guard:
             # the property itself, on the emitted text
-            for what, exp, obs in injection_problems(cpp):
+            probs = injection_problems(cpp)
+            for what, exp, obs in probs[:1]:
                 ctx.fail(what, {"script": src}, exp, obs, key="dev-tick-injected")
             want = sorted([nid[n], CODE[s_]] for n, s_ in t_sites(a))
             got = sorted([t_[0], t_[2]] for t_ in ticks)
-            if want != got:
+            if want != got and not probs:
                 ctx.fail("loop() does not tick every animation started before the main loop exactly once (call sites nested in blocks)",
                          {"script": src}, want, got, key="dev-tick-injected")
             if len(compile_jobs) < (12 if ctx.tier == "thorough" else 4) and tag.startswith("random") and "except Exception" not in src and "except ValueError" not in src:
@@ -1425,10 +1446,11 @@ def replay(data):
 
 def run(ctx: C.Ctx):
     stats = {}
-    hcases, h_nt = run_host(ctx, stats)
-    dindex, d_nt = run_device(ctx, stats)
+    # the text-level injection checks first: their scripts are the smallest, so the first replay of a class is minimal
     run_injection(ctx, stats)
     run_injection_trees(ctx, stats)
+    hcases, h_nt = run_host(ctx, stats)
+    dindex, d_nt = run_device(ctx, stats)
     run_schedule_spec(ctx, stats, hcases, dindex)
     for f in ctx.findings:
         if f.get("kind") == "fixed":
